@@ -7,13 +7,13 @@ import MenpoModel.Core.PyLoop
 set_option linter.unusedVariables false
 
 namespace MenpoModel.Generated.C07
-open MenpoModel.C07
+open MenpoModel.C07 MenpoModel.C07.Np
 
 def genPointCloudCentre {n d : Nat} (self : Mat n d) : Vec d :=
   (centroid self)
 
 def genPointCloudNorm {n d : Nat} (ext : Ext) (self : Mat n d) : Rat :=
-  (ext.frob (centred self))
+  (ext.frob (self - (genPointCloudCentre self)))
 
 def genAlignmentInit {Obj Src Tgt : Type} (ops : ObjOps Obj Src Tgt) (self : Obj) (source : Src) (target : Tgt) : Obj :=
   let self0 := self
@@ -25,7 +25,7 @@ def genAlignedSource {Obj Src Tgt : Type} (ops : ObjOps Obj Src Tgt) (self : Obj
   (ops.apply self (ops.source self))
 
 def genAlignmentError {Obj Src : Type} {n d : Nat} (ext : Ext) (ops : ObjOps Obj Src (Mat n d)) (self : Obj) : Rat :=
-  (ext.frob (msub (ops.target self) (genAlignedSource ops self)))
+  (ext.frob ((ops.target self) - (genAlignedSource ops self)))
 
 def genTargetSetter {Obj Src Tgt : Type} (ops : ObjOps Obj Src Tgt) (self : Obj) (newtarget : Tgt) : Obj :=
   let self0 := (ops.setTarget self newtarget)
@@ -51,11 +51,11 @@ def genSetTarget {Obj Src Tgt : Type} (ops : ObjOps Obj Src Tgt) (sync : Obj â†’
 
 def genTranslationInit {n d : Nat} (ext : Ext) (self : HObj n d) (source target : Mat n d) : HObj n d :=
   let self0 := (genAlignmentInit HObj.ops self source target)
-  let self1 := (HObj.setH self0 (translationH (vsub (genPointCloudCentre target) (genPointCloudCentre source))))
+  let self1 := (HObj.setH self0 (translationH ((genPointCloudCentre target) - (genPointCloudCentre source))))
   self1
 
 def genTranslationSync {n d : Nat} (ext : Ext) (self : HObj n d) : HObj n d :=
-  let translation0 := (vsub (genPointCloudCentre (self).target) (genPointCloudCentre (self).source))
+  let translation0 := ((genPointCloudCentre (self).target) - (genPointCloudCentre (self).source))
   let self0 := (HObj.setH self (setTransCol (self).h translation0))
   self0
 
@@ -103,7 +103,7 @@ def genOptimalRotationMatrix {n d : Nat} (ext : Ext) (source target : Mat n d) (
   if (!allowmirror) then
     let d0 := (signQ (det R0))
     if (decide (d0 < (0))) then
-      let E0 := (eyeLike U0)
+      let E0 := (one : Mat (rowsOf U0) (rowsOf U0))
       let E1 := (setLastDiag E0 d0)
       let R1 := (mul U0 (mul E1 Vt0))
       R1
@@ -130,8 +130,8 @@ def genRotationSync {n d : Nat} (ext : Ext) (self : HObj n d) : HObj n d :=
   self0
 
 def genProcrustesAlignment {n d : Nat} (ext : Ext) (source target : Mat n d) (rotation allowmirror : Bool) : HMat d :=
-  let tgtt0 := (translationH (negV (genPointCloudCentre target)))
-  let srct0 := (translationH (negV (genPointCloudCentre source)))
+  let tgtt0 := (translationH (-(genPointCloudCentre target)))
+  let srct0 := (translationH (-(genPointCloudCentre source)))
   let srcs0 := (scaleH (d := (nDims source)) ((genPointCloudNorm ext target) / (genPointCloudNorm ext source)))
   let p0 := (one : HMat (nDims source))
   let p1 := (mul srct0 p0)
@@ -288,8 +288,8 @@ def genTpsBuildCoefficients {n : Nat} (ext : Ext) (self : TpsObj n) : TpsObj n :
   let u0 := p0.1
   let s0 := p0.2.1
   let v0 := p0.2.2
-  let keep0 := ((vlen s0) - (countBelow s0 (self1).minSing))
-  let invl0 := (mul (colsTo keep0 u0) (rowScaleInv keep0 s0 v0))
+  let keep0 := ((vlen s0) - (countTrue (belowV s0 (self1).minSing)))
+  let invl0 := (mul (colsTo keep0 u0) (((1 : Rat) / (ColK.mk keep0 s0)) * (rowsTo keep0 v0)))
   let self0 := { self1 with coefficients := (mul invl0 (tr (self1).y)) }
   self0
 
@@ -352,7 +352,7 @@ def genTpsPinv {n : Nat} (ext : Ext) (rbf : Mat n 2 â†’ Kern n) (rekern : Kern n
   (genTpsInit ext rbf TpsObj.blank (self).target (self).source (some kernel0) (self).minSing)
 
 def genMeanPointcloud {n d : Nat} (pointclouds : List (Mat n d)) : Mat n d :=
-  let tmppc0 := (sumDivL (List.map (fun it0 => let pc0 := it0; pc0) pointclouds) (List.length pointclouds))
+  let tmppc0 := ((sumL (List.map (fun it0 => let pc0 := it0; pc0) pointclouds)) / (List.length pointclouds))
   tmppc0
 
 def genMultipleAlignmentInit {n d : Nat} (self : GObj n d) (sources : List (Mat n d)) (target : Option (Mat n d)) : Option (GObj n d) :=
@@ -366,7 +366,7 @@ def genMultipleAlignmentInit {n d : Nat} (self : GObj n d) (sources : List (Mat 
     let self0 := self1
     let self1 := { self0 with sources := sources }
     if (target.isNone) then
-      let self0 := { self1 with target := (AsPts.get (sumDivL (List.map (fun it0 => let s0 := it0; s0) (self1).sources) (self1).nSources)) }
+      let self0 := { self1 with target := (AsPts.get ((sumL (List.map (fun it0 => let s0 := it0; s0) (self1).sources)) / (self1).nSources)) }
       some self0
     else
       if (d != 0) then
@@ -382,7 +382,7 @@ def genGpaRecursiveProcrustes {n d : Nat} (ext : Ext) (rec : GObj n d â†’ Bool Ã
     let newtgt0 := (genMeanPointcloud (List.map (fun it0 => let t0 := it0; (genAlignedSource HObj.ops t0)) (self).transforms))
     let rescale0 := (scaleAboutCentreH newtgt0 ((self).initialTargetScale / (genPointCloudNorm ext newtgt0)))
     let newtgt1 := (applyH rescale0 newtgt0)
-    let deltatarget0 := (ext.frob (msub (self).target newtgt1))
+    let deltatarget0 := (ext.frob ((self).target - newtgt1))
     if (decide (deltatarget0 < ((1 : Rat) / 1000000))) then
       (true, self)
     else
